@@ -38,8 +38,20 @@ def attr_types(prog: Program, cls: ClassInfo, attr: str) -> List[str]:
     return sorted(out)
 
 
-def _classes_in(prog: Program, t) -> set:
+def _classes_in(prog: Program, t, depth: int = 0) -> set:
     found = set()
+    # (the value comes out of a function of the package - `self._protocol = await self._connect()`: what that function returns)
+    if depth < 3:
+        for x in subterms(t):
+            if x[0] == "call" and x[1][0] == "func" and x[1][1] in prog.funcs and x[1][1] not in prog.classes:
+                try:
+                    for _pc, rt, n_, _st in summarize(prog, prog.funcs[x[1][1]]).returns:
+                        if n_ is not None:
+                            found |= _classes_in(prog, rt, depth + 1)
+                except AnalysisError:
+                    pass
+        if found:
+            return found
     if t[0] == "call" and t[1][0] == "func" and t[1][1] in prog.classes:
         return {t[1][1]}
     if t[0] == "call" and t[1][0] == "dyn":
